@@ -75,7 +75,7 @@ let parse_bundle (t : Sexp.t) =
       let file = function
         | L [A "file"; nm; tx; L (A "ok" :: nodes); L (A "strs" :: ss)] ->
             List.iter (function L [nd; s] -> Hashtbl.replace strs (node_of nd) (xs (atom s)) | _ -> failwith "c13: bad strs") ss;
-            SrcOk { sf_name = xs (atom nm); sf_text = xs (atom tx); sf_body = List.map node_of nodes }
+            SrcOk { sfile_name = xs (atom nm); sfile_text = xs (atom tx); sfile_body = List.map node_of nodes }
         | L [A "file"; nm; _; L [A "err"; m]] -> SrcParseErr (xs (atom nm), xs (atom m))
         | _ -> failwith "c13: bad file" in
       let srcs = List.map file files in
@@ -109,8 +109,8 @@ let () =
                      | _ -> ["#0"; "#0"]) l) c.cp_msgs in
              let files = List.concat_map (fun f ->
                  match es6_import_block eff f with
-                 | Inr blk -> [hx f.sf_name; "ok"; hx blk]
-                 | Inl e -> [hx f.sf_name; "err"; str (js_err_s e)]) c.cp_soyfiles in
+                 | Inr blk -> [hx f.sfile_name; "ok"; hx blk]
+                 | Inl e -> [hx f.sfile_name; "err"; str (js_err_s e)]) c.cp_soyfiles in
              ["ok"; "#" ^ string_of_int (List.length tnames)] @ lookups
              @ ["#" ^ string_of_int (List.length c.cp_msgs)] @ msgs
              @ ["#" ^ string_of_int (List.length c.cp_soyfiles)] @ files)
